@@ -272,7 +272,7 @@ def replay_counterexample(prop, config, name, h, items, obligations, bins, extra
 
 
 def save_replay(prop, name, rec):
-    rdir = os.path.join(VERIF, 'replays', prop)
+    rdir = os.path.join(os.environ.get('VERIF_REPLAY_DIR') or os.path.join(VERIF, 'replays'), prop)
     os.makedirs(rdir, exist_ok=True)
     path = os.path.join(rdir, name + '.json')
     open(path, 'w').write(json.dumps(rec, indent=1).replace('\n   ', ' ').replace('\n  ]', ' ]'))
@@ -554,8 +554,9 @@ def finish(prop, tier, seed, t0, parts, violations=(), broken=(), undecided=(), 
         wall_s=round(wall, 1),
         violations=len(violations),
     )
-    os.makedirs(os.path.join(VERIF, 'evidence'), exist_ok=True)
-    json.dump(ev, open(os.path.join(VERIF, 'evidence', prop + '.json'), 'w'), indent=1)
+    evdir = os.environ.get('VERIF_EVIDENCE_DIR') or os.path.join(VERIF, 'evidence')
+    os.makedirs(evdir, exist_ok=True)
+    json.dump(ev, open(os.path.join(evdir, prop + '.json'), 'w'), indent=1)
     for n in notes:
         log('NOTE ' + n)
     for v in violations:
